@@ -32,6 +32,10 @@ def ensure_facts():
     """(re)compute MIR facts for the current tree; cached by tree hash only"""
     path = facts_path()
     if os.path.exists(path):
+        try:
+            os.utime(os.path.dirname(path))
+        except OSError:
+            pass
         return path
     with Lock('mir'):
         if os.path.exists(path):
